@@ -12,6 +12,7 @@ CONSTANTS
   Filts = {"none", "client", "server"}
   Ops = {"pub", "rem", "exp", "clear", "refresh"}
   MaxJumps = 1
+  EpochCheck = TRUE
   Pres = {3}
   N0s = {2}
   Contig = FALSE
